@@ -1,5 +1,6 @@
 (* Family P proofs, part 1: tactics, the per-label effect of a step on the places, the
    place invariant (Loc, FIFO) and the lifecycle invariant of the write-pipeline LTS. *)
+From BS Require Import Model.Pipeline.
 From Coq Require Import List ZArith Bool Arith Lia Permutation.
 Import ListNotations.
 Open Scope Z_scope.
